@@ -69,6 +69,9 @@ def main():
                     rec = _run(H, it, mode)
                     hit = [o for o in rec['obligations'] if o['status'] == 'cex' and o['label'] == it['label']
                            and (o.get('sig') == it.get('sig'))]
+                    if hit and rec['assume_failed']:
+                        res['why'] = f"mode {mode}: an assumption of the path does not hold concretely: {rec['assume_failed'][:2]}"
+                        continue
                     if hit:
                         res = dict(reproduced=True, mode=mode,
                                    detail=dict(info=hit[0].get('info'), status=rec['status'], exc=rec.get('exc'),
